@@ -83,6 +83,20 @@ def c09():
             if "error" in got: R.fail("c09.resume_runs", "resumed run failed", inp, got["error"]); continue
             bad = [x for x in rs if not (np.allclose(np.asarray(got.get(x), dtype=float), np.asarray(rs[x], dtype=float), rtol=0, atol=0) if x != "iteration" else got.get(x) == rs[x])]
             if bad: R.fail("c09.resume_equals_uninterrupted", f"resumed run differs from the uninterrupted run in {bad}", inp, {x: got.get(x) for x in bad}, {x: rs[x] for x in bad})
+        # the load_checkpoint() route: into a hand-built solver that has not run yet, and into a solver OBJECT that has already run to convergence
+        # (rewound in place) - run-time state that is neither saved nor re-initialised by the load (flags, counters) shows only in the second form
+        for k in sorted({1, max(1, nref // 2)}) if TH else [max(1, nref // 2)]:
+            if k >= nref: continue
+            d = os.path.join(base, f"c09_lc_{name}_{k}"); s = cls(Forest(S=11, p=0.2), verbose=0, checkpoint_dir=d, checkpoint_frequency=1, max_checkpoints=1, enable_async_checkpointing=False, **kw); s.solve(k); wait(s)
+            for how in ("hand_built_solver", "solver_object_that_already_converged"):
+                inp = dict(solver=name, problem="Forest(S=11,p=0.2)", interrupt_at=k, route="load_checkpoint", into=how, **{x: y for x, y in kw.items()}); R.case((name, k, "load_checkpoint", how), inp)
+                try:
+                    h = cls(Forest(S=11, p=0.2), verbose=0, checkpoint_dir=os.path.join(base, f"c09_lc_own_{name}_{k}_{how}"), checkpoint_frequency=0, **kw)
+                    if how != "hand_built_solver": h.solve(400); wait(h)
+                    h.load_checkpoint(d); got = result_of(h.solve(400)); wait(h)
+                except Exception as ex: R.fail("c09.resume_runs", f"resuming through load_checkpoint() failed: {type(ex).__name__}", inp, str(ex)[:300]); continue
+                bad = [x for x in rs if not (np.allclose(np.asarray(got.get(x), dtype=float), np.asarray(rs[x], dtype=float), rtol=0, atol=0) if x != "iteration" else got.get(x) == rs[x])]
+                if bad: R.fail("c09.resume_equals_uninterrupted", f"a run resumed through load_checkpoint() into a {how.replace('_', ' ')} differs from the uninterrupted run in {bad}", inp, {x: got.get(x) for x in bad}, {x: rs[x] for x in bad})
         # enabling checkpointing (any frequency / retention / mode) never changes a result
         for f, m, asyn in ([(1, 1, True), (4, 2, False)] if TH else [(2, 2, name != "vi")]):
             d = os.path.join(base, f"c09_on_{name}_{f}"); s = cls(Forest(S=11, p=0.2), verbose=0, checkpoint_dir=d, checkpoint_frequency=f, max_checkpoints=m, enable_async_checkpointing=asyn, **kw)
